@@ -24,7 +24,9 @@ Exp(ls, c) == Choose_Alg(Window(Items(ls), c))
 Next == /\ ~done /\ done' = TRUE
         /\ \E last \in 0..Len(Menu) : lines' = IF last = 0 THEN lines ELSE Append(lines, last)
         /\ cl' \in 0..(MaxLen + 1)
-        /\ PrintT(ToJson([lines |-> lines', cl |-> cl', exp |-> Exp(lines', cl'), imp |-> Importer(Exp(lines', cl'))]))
+        /\ PrintT(ToJson([lines |-> lines', cl |-> cl', texts |-> [i \in 1..Len(lines') |-> Menu[lines'[i]]],
+                         per |-> [i \in 1..Len(lines') |-> Infer(Menu[lines'[i]]).d],
+                         exp |-> Exp(lines', cl'), imp |-> Importer(Exp(lines', cl'))]))
 InvDecl == done => Choose_Decl(Window(Items(lines), cl), Exp(lines, cl))
 \* a window that is consistent (all lines infer the same dialect apart from order) yields that dialect
 InvConsistent == done => LET w == Window(Items(lines), cl) IN
